@@ -22,7 +22,10 @@ EXPLANATION = (
     "of bytes whose data bits differ, and -- the clause that FAILS on this tree, known finding F14 -- orders a terminator "
     "byte after the continuation byte with the same data bits; (C16.6) ordered::encode_i32/i64 and decode_i32/i64 are piecewise "
     "translations of their argument (class checked), tabulated exactly: encode is strictly increasing from signed to unsigned order, "
-    "decode inverts it on every value, and the signed Element impls go through them.  TABLE, const eval, finite-domain evaluation, "
+    "decode inverts it on every value, and the signed Element impls go through them; (C16.7) tuple_key2's byte-string framing is "
+    "written and read by the same table: the writer emits every payload byte once, emits the escape 0xff only behind a payload byte that a "
+    "comparison with 0x00 identified, and ends with 0x00 0x00; the reader turns 0x00 0xff into 0x00, ends at 0x00 0x00, rejects any other "
+    "pair and copies every other byte.  TABLE, const eval, finite-domain evaluation, "
     "exact piecewise tabulation, panic audit and array-bounds dataflow over REACH.")
 NOT_DECIDED = ("order preservation, prefix contiguity and round-trip for values in general: relations between two inputs at width and "
                "escape boundaries (C16.4 decides one necessary per-byte condition of descending order by exhaustive evaluation)")
@@ -36,6 +39,7 @@ def rules(ctx):
     c164(ctx)
     c165(ctx)
     c166(ctx)
+    c167(ctx)
 
 
 ENC = re.compile(r"::(append_to|extend|extend_with_key|extend_field_number|field_number|append|builder|build|finish|tuple_key|unit|bytes|string|"
@@ -405,3 +409,132 @@ def c166(ctx):
             ctx.check(R, f, "uses-mapping", ("tuple_key::ordered::" + want + f.impl_self[1:]) in calls, "%s::%s goes through ordered::%s%s" % (f.impl_self, f.name, want, f.impl_self[1:]),
                       "%s::%s does not use ordered::%s%s" % (f.impl_self, f.name, want, f.impl_self[1:]))
     ctx.floor(R, "signed Element append_to / parse_from", n, 4)
+
+
+# ------------------------------------------------------------------------------------------------
+# C16.7 tuple_key2 byte-string framing (0x00 -> 0x00 0xff, terminator 0x00 0x00): writer and reader agree
+
+def _u8_const(o):
+    if o.get("k") == "const" and "v" in o["c"] and str(o["c"].get("ty", "u8")) == "u8":
+        return o["c"]["v"]
+    return None
+
+
+def _vec_u8_pushes(f):
+    out = []
+    for b, t in f.calls():
+        ck = callee_skey(t) or ""
+        if re.search(r"alloc::vec::Vec::push$", ck) and len(t["args"]) == 2 and "Vec<u8" in (f.locals[K.ref_base(f, t["args"][0])] if K.ref_base(f, t["args"][0]) is not None else "Vec<u8"):
+            out.append((P.term_pt(f, b.idx), t))
+    return out
+
+
+def byte_facts(f, pt):
+    """Facts (base locals of the byte, constant, holds) established by the switch edges dominating pt: comparisons of a u8 with
+    a constant and switches on a u8 value."""
+    out = []
+    for g in K.compare_guards(f, pt, user_only=False):
+        if g["op"] not in ("Eq", "Ne"):
+            continue
+        a, b = g["a"], g["b"]
+        if _u8_const(a) is not None:
+            a, b = b, a
+        c = _u8_const(b)
+        if c is None:
+            continue
+        out.append((frozenset(K.base_locals(f, a)), c, (g["op"] == "Eq") == g["holds"]))
+    for bb, lab in P.guards_of(f, pt):
+        d = f.blocks[bb].term["discr"]
+        if d.get("k") in ("copy", "move") and ((not d["pl"]["p"] and f.locals[d["pl"]["l"]] == "u8") or
+                                               (d["pl"]["p"] == ["*"] and f.locals[d["pl"]["l"]] in ("&u8", "&mut u8"))):
+            arms = [v for v, _ in f.blocks[bb].term["arms"]]
+            m = re.match(r"sw:(\d+)$", lab)
+            if m and int(m.group(1)) in arms:
+                out.append((frozenset(K.base_locals(f, d) | {d["pl"]["l"]}), int(m.group(1)), True))
+            else:
+                for v in arms:
+                    out.append((frozenset(K.base_locals(f, d) | {d["pl"]["l"]}), v, False))
+    return out
+
+
+def c167(ctx):
+    R = "C16.7"
+    ctx.declare(R, "tuple_key2 byte strings: a NUL is written as 00 ff and only a NUL is, the element ends with 00 00, and the reader undoes exactly that")
+    ESC, NUL = 255, 0
+    writers = []
+    for f in sorted(ctx.prog.fns.values(), key=lambda f: f.skey):
+        if f.crate != "tuple_key2" or f.kind == "Closure":
+            continue
+        if any(_u8_const(t["args"][1]) == ESC for _pt, t in _vec_u8_pushes(f)):
+            writers.append(f)
+    ctx.floor(R, "functions writing the escape byte", len(writers), 1)
+    entry = ctx.fn(R, "tuple_key2::encode_bytes")
+    for f in writers:
+        pushes = _vec_u8_pushes(f)
+        elem = [(pt, t) for pt, t in pushes if _u8_const(t["args"][1]) is None]
+        for pt, t in pushes:
+            if _u8_const(t["args"][1]) != ESC:
+                continue
+            facts = byte_facts(f, pt)
+            ok = False
+            why = "no comparison of a payload byte with 0x00 dominates it"
+            for locs, c, holds in facts:
+                if c == NUL and holds:
+                    # the byte compared is a byte this iteration has just written
+                    prior = [q for q, tq in pushes if q != pt and not P.order(f, [q], [pt]) and
+                             ((_u8_const(tq["args"][1]) is None and locs & K.base_locals(f, tq["args"][1])) or
+                              (_u8_const(tq["args"][1]) == NUL and any(c2 == NUL and h2 for _l2, c2, h2 in byte_facts(f, q))))]
+                    if prior:
+                        ok = True
+                    else:
+                        why = "the byte compared with 0x00 is not the byte written just before the escape"
+            ctx.check(R, f, "escape-after-compared-nul", ok, "0xff is written only behind a payload byte that compared equal to 0x00",
+                      "%s writes the escape 0xff where %s: every byte after 0x00 other than ff/00 is an invalid pair to the reader, and an escape after a "
+                      "non-NUL byte changes the order of the encoding (not shown; accepted form: `out.push(b); if b == 0 { out.push(0xff) }`)" % (f.skey, why), pt=pt)
+        # every payload byte is written once per iteration of a loop over the whole payload
+        heads = [P.term_pt(f, b.idx) for b, t in f.calls() if re.search(r"Iterator>::next$|::next$", callee_skey(t) or "") and
+                 P.reach(f, P.after(f, P.term_pt(f, b.idx)), [P.term_pt(f, b.idx)]) is not None]
+        ctx.floor(R, "%s payload loop" % f.skey, len(heads), 1)
+        for h in heads:
+            ity = K.loop_iterator_type(f, h)
+            sub = K.loop_source_subslice(f, h)
+            whole = ("slice::iter::Iter<" in ity and not K.DROPPING_ADAPTERS.search(ity) and sub is None)
+            ctx.check(R, f, "whole-payload", whole, "the loop visits every byte of the payload in order (%s)" % ity,
+                      "%s does not walk the payload byte by byte (%s%s): bytes handled by another path must be shown to be framed identically" %
+                      (f.skey, ity, ", narrowed by %s" % sub if sub else ""), pt=h)
+            q = P.reach(f, P.after(f, h), [h], avoid={pt for pt, _t in pushes} | set(P.return_points(f)))
+            ctx.check(R, f, "every-byte-written", q is None, "every iteration writes the payload byte", "an iteration can skip writing its payload byte", pt=h, path=q)
+        # the element ends with 00 00 and nothing after
+        tail = [pt for pt, t in pushes if _u8_const(t["args"][1]) == NUL and P.reach(f, P.after(f, pt), [pt]) is None]
+        if f is not entry and not tail:
+            continue
+        ok = len(tail) == 2 and all(P.must_pass(f, [pt]) is None for pt in tail)
+        later = [pt for pt, _t in pushes if pt not in tail and any(P.reach(f, P.after(f, tp), [pt]) is not None for tp in tail)]
+        ctx.check(R, f, "terminator", ok and not later, "the element ends with 0x00 0x00 on every path and nothing is written after it",
+                  "%s does not end every element with exactly 0x00 0x00" % f.skey)
+    if entry is not None:
+        ctx.check(R, entry, "one-writer", [w.skey for w in writers] == ["tuple_key2::encode_bytes"], "encode_bytes is the only function that writes escapes",
+                  "escapes are written by %s" % [w.skey for w in writers])
+    # the reader
+    f = ctx.fn(R, "tuple_key2::TupleKeyParser::bytes")
+    if f:
+        pushes = _vec_u8_pushes(f)
+        ctx.floor(R, "pushes into the decoded payload", len(pushes), 2)
+        for pt, t in pushes:
+            facts = byte_facts(f, pt)
+            c = _u8_const(t["args"][1])
+            if c is not None:
+                nul = any(cc == NUL and h for _l, cc, h in facts)
+                esc = any(cc == ESC and h for _l, cc, h in facts)
+                ctx.check(R, f, "unescape", c == NUL and nul and esc, "0x00 0xff decodes to 0x00",
+                          "the reader writes the constant %#x where it has not seen 0x00 followed by 0xff" % c, pt=pt)
+            else:
+                locs = K.base_locals(f, t["args"][1])
+                notnul = any(cc == NUL and not h and (l & locs) for l, cc, h in facts)
+                ctx.check(R, f, "literal", notnul, "a byte other than 0x00 is copied as it is", "the reader copies a byte that was not compared unequal to 0x00", pt=pt)
+        for pt in P.ok_points(f):
+            facts = byte_facts(f, pt)
+            nuls = [l for l, cc, h in facts if cc == NUL and h]
+            ctx.check(R, f, "terminator-read", len(nuls) >= 2 and len(set(nuls)) >= 2, "the element ends at 0x00 0x00 and nowhere else",
+                      "the reader ends a byte string without having seen 0x00 0x00", pt=pt)
+        ctx.floor(R, "Ok exits of the reader", len(P.ok_points(f)), 1)
